@@ -1,6 +1,8 @@
 #include "photospline/cinter/splinetable.h"
 #include "photospline/splinetable.h"
 
+#include <limits>
+
 #ifdef __cplusplus
 extern "C" {
 #endif
@@ -30,10 +32,13 @@ void splinetable_free(struct splinetable* table){
 int readsplinefitstable(const char* path, struct splinetable* table){
 	if(!path || !table)
 		return(1);
-	if(table->data)
-		splinetable_free(table);
 	try{
-		table->data=new photospline::splinetable<>(path);
+		//keep the handle valid (empty) if reading fails, and like the C++
+		//interface refuse to overwrite a table which already holds data
+		if(!table->data)
+			table->data=new photospline::splinetable<>();
+		auto& real_table=*static_cast<photospline::splinetable<>*>(table->data);
+		real_table.read_fits(path);
 	}catch(std::exception& ex){
 		fprintf(stderr,"%s\n",ex.what());
 		return(1);
@@ -44,7 +49,7 @@ int readsplinefitstable(const char* path, struct splinetable* table){
 }
 
 int writesplinefitstable(const char* path, const struct splinetable* table){
-	if(!path || !table)
+	if(!path || !table || !table->data)
 		return(1);
 	try{
 		const auto& real_table=*static_cast<const photospline::splinetable<>*>(table->data);
@@ -81,11 +86,15 @@ int splinetable_read_key(const struct splinetable* table, splinetable_dtype type
 		const auto& real_table=*static_cast<const photospline::splinetable<>*>(table->data);
 		switch(type){
 			case SPLINETABLE_INT:
-				real_table.read_key(key,*static_cast<int*>(result));
+				if(!real_table.read_key(key,*static_cast<int*>(result)))
+					return(1);
 				break;
 			case SPLINETABLE_DOUBLE:
-				real_table.read_key(key,*static_cast<double*>(result));
+				if(!real_table.read_key(key,*static_cast<double*>(result)))
+					return(1);
 				break;
+			default:
+				return(1);
 		}
 	}catch(std::exception& ex){
 		fprintf(stderr,"%s\n",ex.what());
@@ -109,6 +118,8 @@ int splinetable_write_key(struct splinetable* table, splinetable_dtype type,
 			case SPLINETABLE_DOUBLE:
 				real_table.write_key(key,*static_cast<const double*>(value));
 				break;
+			default:
+				return(1);
 		}
 	}catch(std::exception& ex){
 		fprintf(stderr,"%s\n",ex.what());
@@ -171,32 +182,64 @@ const float* splinetable_coefficients(const struct splinetable* table){
 	
 int tablesearchcenters(const struct splinetable* table, const double* x,
                        int* centers){
-	const auto& real_table=*static_cast<const photospline::splinetable<>*>(table->data);
-	return(real_table.searchcenters(x,centers));
+	try{
+		const auto& real_table=*static_cast<const photospline::splinetable<>*>(table->data);
+		return(real_table.searchcenters(x,centers));
+	}catch(...){
+		return(0);
+	}
 }
 	
 double ndsplineeval(const struct splinetable* table, const double* x,
                     const int* centers, int derivatives){
-	const auto& real_table=*static_cast<const photospline::splinetable<>*>(table->data);
-	return(real_table.ndsplineeval(x,centers,derivatives));
+	try{
+		const auto& real_table=*static_cast<const photospline::splinetable<>*>(table->data);
+		return(real_table.ndsplineeval(x,centers,derivatives));
+	}catch(...){
+		return(std::numeric_limits<double>::quiet_NaN());
+	}
 }
 	
 void ndsplineeval_gradient(const struct splinetable* table, const double* x,
                            const int* centers, double* evaluates){
 	const auto& real_table=*static_cast<const photospline::splinetable<>*>(table->data);
-	real_table.ndsplineeval_gradient(x,centers,evaluates);
+	try{
+		real_table.ndsplineeval_gradient(x,centers,evaluates);
+	}catch(std::exception& ex){
+		//there is no return value to report failure (e.g. too many dimensions)
+		//with, so the results are marked invalid instead
+		fprintf(stderr,"%s\n",ex.what());
+		std::fill(evaluates,evaluates+real_table.get_ndim()+1,std::numeric_limits<double>::quiet_NaN());
+	}catch(...){
+		std::fill(evaluates,evaluates+real_table.get_ndim()+1,std::numeric_limits<double>::quiet_NaN());
+	}
 }
 	
 double ndsplineeval_deriv(const struct splinetable* table, const double* x,
                            const int* centers, const unsigned int *derivatives){
-	const auto& real_table=*static_cast<const photospline::splinetable<>*>(table->data);
-	return(real_table.ndsplineeval_deriv(x,centers,derivatives));
+	try{
+		const auto& real_table=*static_cast<const photospline::splinetable<>*>(table->data);
+		return(real_table.ndsplineeval_deriv(x,centers,derivatives));
+	}catch(...){
+		return(std::numeric_limits<double>::quiet_NaN());
+	}
 }
 	
 int splinetable_convolve(struct splinetable* table, const int dim,
                          const double* knots, size_t n_knots){
-	auto& real_table=*static_cast<photospline::splinetable<>*>(table->data);
-	real_table.convolve(dim, knots, n_knots);
+	if(!table || !table->data || !knots)
+		return(1);
+	try{
+		auto& real_table=*static_cast<photospline::splinetable<>*>(table->data);
+		if(dim<0 || (uint32_t)dim>=real_table.get_ndim() || n_knots<2)
+			return(1);
+		real_table.convolve(dim, knots, n_knots);
+	}catch(std::exception& ex){
+		fprintf(stderr,"%s\n",ex.what());
+		return(1);
+	}catch(...){
+		return(1);
+	}
 	return(0);
 }
 	
@@ -220,7 +263,7 @@ int readsplinefitstable_mem(const struct splinetable_buffer* buffer,
 	
 int writesplinefitstable_mem(struct splinetable_buffer* buffer,
                              const struct splinetable* table){
-	if(!buffer || buffer->data || !table)
+	if(!buffer || buffer->data || !table || !table->data)
 		return(1);
 	try{
 		auto& real_table=*static_cast<photospline::splinetable<>*>(table->data);
@@ -306,6 +349,8 @@ void ndsparse_destroy(struct ndsparse* nd){
 #endif //PHOTOSPLINE_INCLUDES_SPGLAM
 	
 int splinetable_permute(struct splinetable* table, size_t* permutation){
+	if(!table || !table->data || !permutation)
+		return(1);
 	try{
 		auto& real_table=*static_cast<photospline::splinetable<>*>(table->data);
 		std::vector<size_t> permutationv(real_table.get_ndim());
